@@ -12,6 +12,7 @@ import FordModel.Graph
 import FordModel.Lemmas.Graph
 import FordModel.Lemmas.GraphData
 import FordModel.Lemmas.GraphCalls
+import FordModel.Lemmas.GraphCtor
 namespace Ford.C13
 open Ford Ford.Graph
 
@@ -490,6 +491,218 @@ theorem iface_impl_witness :
     let tab : Table := [{ kind := .proc, isIface := true, cls := 0, impl := some 1 }, { kind := .proc, cls := 1 }]
     (ent tab 1).visible = true ∧ ifaceTargets rules tab 0 = [] := by
   decide
+
+/-- **Every node constructor registers both directions of every relation (table read from the
+    source).**  For every class of ford.sourceform the graph code accepts (modules, submodules, types,
+    every kind of procedure, programs, BLOCK DATA units, source files) and every attribute its node
+    constructor reads, the real constructor — run by the translator on a stub object — stores the
+    target's node on the new node **and** the new node in the inverse set of the target.  A constructor
+    that fills `uses` without `used_by` (or skips one of the lists of program units of a file) changes
+    a row of the regenerated table and breaks this proof. -/
+theorem ctor_links_both_directions :
+    ∀ r ∈ C13Gen.ctorLinks, r.fwd = true ∧ r.inv = true := by
+  decide
+
+/-- **The constructors read exactly the slots the model gives their node class.**  For every class
+    with a node constructor, a slot is read by the real constructor (a row of the regenerated table)
+    iff `slotsOf` lists it for the node class — USE for modules, submodules, procedures, programs and
+    BLOCK DATA units; ancestry for submodules; extension and composition for types; calls (and
+    bindings, for procedures); file dependencies for source files.  No relation of a program unit is
+    left out of the model, none is in the model only. -/
+theorem ctor_slots_match_model (c : Nat × Nat) (hc : c ∈ C13Gen.ctorClasses) (k : Kind) (hk : k.code = c.2)
+    (s : Slot) :
+    s ∈ slotsOf k ↔ ∃ r ∈ C13Gen.ctorLinks, r.cls = c.1 ∧ r.slot = s.code := by
+  have key : ∀ c ∈ C13Gen.ctorClasses, ∀ k ∈ allKinds, k.code = c.2 → ∀ s ∈ allSlots,
+      (s ∈ slotsOf k ↔ ∃ r ∈ C13Gen.ctorLinks, r.cls = c.1 ∧ r.slot = s.code) := by
+    decide
+  exact key c hc k (mem_allKinds k) hk s (mem_allSlots s)
+
+/-- every node class of the model is the node class of some class of ford.sourceform (no part of
+    `slotsOf` is beyond the reach of the table), and the rows of the table belong to listed classes -/
+theorem ctor_classes_cover :
+    (∀ k ∈ allKinds, k ≠ .ext → ∃ c ∈ C13Gen.ctorClasses, c.2 = k.code)
+      ∧ (∀ r ∈ C13Gen.ctorLinks, (r.cls, r.kind) ∈ C13Gen.ctorClasses) := by
+  decide
+
+/-- **Every kind of documented entity is handed to the graph manager (partial).**  Every list of
+    entities of a `Project` whose declared element class has a node constructor is among the lists
+    `Documentation.__init__` registers with `GraphManager` (both read from the source: ford/output.py,
+    ford/fortran_project.py).  Excluded by the decidable hypothesis: the list of abstract interfaces,
+    which have pages but — calling nothing, called by nothing — no graphs (`registration_witness`). -/
+theorem registration_partial :
+    ∀ l ∈ C13Gen.projectLists, (∃ c ∈ C13Gen.ctorClasses, c.1 = l.cls) → l.name ≠ "absinterfaces" →
+      l.registered = true := by
+  decide
+
+/-- ... so every node class of the model — modules, submodules, types, procedures, programs, files,
+    BLOCK DATA units — has a registered list whose entities get it; and nothing is registered that
+    the graph code has no node class for. -/
+theorem registration_covers_kinds :
+    (∀ k ∈ allKinds, k ≠ .ext →
+        ∃ l ∈ C13Gen.projectLists, l.registered = true ∧ (l.cls, k.code) ∈ C13Gen.ctorClasses)
+      ∧ (∀ l ∈ C13Gen.projectLists, l.registered = true → ∃ c ∈ C13Gen.ctorClasses, c.1 = l.cls) := by
+  decide
+
+/-- the excluded list: its element class (`FortranInterface`) has a node constructor, it is not registered -/
+theorem registration_witness :
+    ∃ l ∈ C13Gen.projectLists, l.name = "absinterfaces" ∧ (∃ c ∈ C13Gen.ctorClasses, c.1 = l.cls)
+      ∧ l.registered = false := by
+  decide
+
+/-- **Whatever a relation slot holds ends in both sets.**  After any run of `register` / `get_node`
+    (any order, both creation phases), for every entity `a` that has a node — module, submodule, type,
+    procedure, program, BLOCK DATA unit or file — and every entity `t` one of its (non-call) slots
+    holds: `t` is in the forward set of `a` **and** `a` is in the inverse set of `t` (`used_by`,
+    `children`, `comp_of`, `afferent`).  (Types of an external project link nothing: `hx`.) -/
+theorem ctor_slot_linked (tab : Table) (f1 f2 : Nat) (w1 w2 : List Node) (nd1 nd2 : NodeData)
+    (h1 : create tab f1 w1 {} = some nd1) (h2 : create tab f2 w2 nd1 = some nd2) (a t : Node) (s : Slot)
+    (ha : a ∈ nd2.created) (hs : s ∈ slotsOf (ent tab a).kind) (hc : s.isCall = false)
+    (hx : (ent tab a).kind = .type → (ent tab a).extUrl = false)
+    (ht : t ∈ slotVals (ent tab a) s) :
+    t ∈ fwdOf nd2 a s.rel ∧ a ∈ invOf nd2 t s.rel := by
+  have hf : t ∈ fwdOf nd2 a s.rel :=
+    (relation_exact_later tab f1 f2 w1 w2 nd1 nd2 h1 h2 a t s.rel).2
+      ⟨ha, targets_slot_complete tab a t s hs hc hx ht⟩
+  exact ⟨hf, (inverse_sets_later tab f1 f2 w1 w2 nd1 nd2 h1 h2 a t s.rel).2 hf⟩
+
+/-- ... **and nothing else does**: every member of a forward set (interface-to-implementation links
+    aside, which have their own table) comes from a slot of the entity's node class — for the
+    non-call slots it is literally a value of the slot, for the call slots it is a nearest shown
+    descendant (`calls_shown_exact`). -/
+theorem ctor_links_only_slots (tab : Table) (f1 f2 : Nat) (w1 w2 : List Node) (nd1 nd2 : NodeData)
+    (h1 : create tab f1 w1 {} = some nd1) (h2 : create tab f2 w2 nd1 = some nd2) (a t : Node) (r : Rel)
+    (hr : r ≠ .iface) (h : t ∈ fwdOf nd2 a r) :
+    ∃ s ∈ slotsOf (ent tab a).kind, s.rel = r ∧ (s.isCall = false → t ∈ slotVals (ent tab a) s) :=
+  targets_slot_sound tab a t r ((relation_exact_later tab f1 f2 w1 w2 nd1 nd2 h1 h2 a t r).1 h).2 hr
+
+/-- **"Used by" knows every kind of program unit.**  Whatever has a node and a USE statement for `m`
+    — a module, a submodule, a procedure, a program or a BLOCK DATA unit — is visited by the
+    "used by" graph of `m`, with the dashed edge `a -> m` the "uses" graph of `a` draws. -/
+theorem usedBy_every_unit (tab : Table) (f1 f2 : Nat) (w1 w2 : List Node) (nd1 nd2 : NodeData)
+    (h1 : create tab f1 w1 {} = some nd1) (h2 : create tab f2 w2 nd1 = some nd2) (a m : Node)
+    (ha : a ∈ nd2.created) (hk : Slot.uses ∈ slotsOf (ent tab a).kind) (hm : m ∈ (ent tab a).uses) :
+    (a, ⟨a, m, .dashed⟩) ∈ succOf tab nd2 .usedBy m ∧ (m, ⟨a, m, .dashed⟩) ∈ succOf tab nd2 .uses a := by
+  have hx : (ent tab a).kind = .type → (ent tab a).extUrl = false := by
+    intro ht; rw [ht] at hk; simp [slotsOf] at hk
+  have hl := ctor_slot_linked tab f1 f2 w1 w2 nd1 nd2 h1 h2 a m .uses ha hk rfl hx hm
+  simp only [succOf, List.mem_append, mem_map_pair]
+  exact ⟨Or.inl ⟨hl.2, trivial⟩, Or.inl ⟨hl.1, trivial⟩⟩
+
+/-- the calls a procedure / program node shows are computed from exactly its call slots -/
+theorem call_slots_exact (tab : Table) (a : Node) :
+    rawCalls tab a = ((slotsOf (ent tab a).kind).filter Slot.isCall).flatMap (slotVals (ent tab a)) :=
+  rawCalls_eq_slots tab a
+
+/-- Witness for what `ctor_links_both_directions` excludes: were the USE links of a BLOCK DATA unit
+    stored on its own node only (`inv` left out), the "uses" graph of the unit `1` would draw the
+    edge to module `0` while the "used by" graph of the module stays empty. -/
+theorem ctor_one_direction_witness :
+    let tab : Table := [{ kind := .mod, maxNodes := 10 }, { kind := .block, uses := [0], maxNodes := 10 }]
+    let nd : NodeData := { created := [0, 1], fwd := [⟨1, .uses, 0⟩], inv := [] }
+    (0, ⟨1, 0, .dashed⟩) ∈ succOf tab nd .uses 1 ∧ succOf tab nd .usedBy 0 = []
+      ∧ (graphOf false tab nd .usedBy [0]).added = [0] := by
+  refine ⟨by decide, by decide, ?_⟩
+  rw [graphOf, runGraph, addNodes]
+  decide
+
+/-- **The table fall-back shows exactly the first hop of the relation.**  When a graph is put on
+    its page as a table (`__str__`), it has a single root, its first hop did not fit beside the root
+    within `graph_maxnodes`, nothing but the root is drawn — and the rows of the table (`hop_nodes`
+    / `hop_edges`) are exactly what the class's `add_node` yields for the root: every entity one step
+    away, every edge of that step, nothing from a later hop. -/
+theorem table_shows_first_hop (fx : Bool) (tab : Table) (nd : NodeData) (c : GClass) (roots : List Node)
+    (h : shownOf fx tab nd c roots = .table) :
+    roots.length = 1
+      ∧ (graphOf fx tab nd c roots).added = dedup roots ∧ (graphOf fx tab nd c roots).edges = []
+      ∧ (graphOf fx tab nd c roots).hopNodes = hopOf (cfgOf fx tab nd c roots) (dedup roots) roots
+      ∧ (graphOf fx tab nd c roots).hopEdges = hopEdgesOf (cfgOf fx tab nd c roots) roots
+      ∧ (cfgOf fx tab nd c roots).maxNodes
+          < (hopOf (cfgOf fx tab nd c roots) (dedup roots) roots).length + (dedup roots).length := by
+  have hh : (graphOf fx tab nd c roots).hopNodes ≠ [] ∧ roots.length = 1 := by
+    unfold shownOf shownAs at h
+    simp only at h
+    repeat' split at h
+    all_goals first | cases h | skip
+    rename_i h1
+    simpa [List.isEmpty_iff] using h1
+  obtain ⟨h1, h2, _, h4, h5, h6⟩ := runGraph_table (cfgOf fx tab nd c roots) roots hh.1
+  exact ⟨hh.2, h1, h2, h4, h5, h6⟩
+
+/-- **A graph drawn as a picture respects the node limit and shows more than one node** ... -/
+theorem svg_within_limits (fx : Bool) (tab : Table) (nd : NodeData) (c : GClass) (roots : List Node)
+    (h : shownOf fx tab nd c roots = .svg) :
+    1 < (graphOf fx tab nd c roots).added.length
+      ∧ (graphOf fx tab nd c roots).added.length ≤ (cfgOf fx tab nd c roots).maxNodes := by
+  unfold shownOf shownAs at h
+  simp only at h
+  repeat' split at h
+  all_goals first | cases h | skip
+  rename_i h1 h2 _ _
+  constructor
+  · by_cases hl : (graphOf fx tab nd c roots).added.length ≤ 1
+    · exfalso; apply h1; refine ⟨hl, ?_⟩
+      rename_i h4; simpa using h4
+    · omega
+  · omega
+
+/-- ... **and every graph that has something to show and fits is shown**: more than one node, within
+    `graph_maxnodes`, no root missing ⇒ the page carries the picture or the table, never nothing. -/
+theorem shown_if_fits (fx : Bool) (tab : Table) (nd : NodeData) (c : GClass) (roots : List Node)
+    (h1 : 1 < (graphOf fx tab nd c roots).added.length)
+    (h2 : (graphOf fx tab nd c roots).added.length ≤ (cfgOf fx tab nd c roots).maxNodes)
+    (h3 : roots.length ≤ (graphOf fx tab nd c roots).added.length) :
+    shownOf fx tab nd c roots ≠ .nothing := by
+  unfold shownOf shownAs
+  simp only
+  repeat' split
+  all_goals first | omega | simp
+
+/-- **The rows of the table name the entities beside the root (partial).**  The refused first hop of
+    every graph class consists of edges that all leave the root or all enter it (`hop_edges_oriented`);
+    for such a hop each row of the table shows the *other* end of its edge, with the style of the edge.
+    Excluded for the code as it is, by the decidable hypothesis `hx`: the first kept edge leads from
+    the root to itself (a recursive procedure, a type with a component of its own type) while some
+    edge enters the root — finding `C13-table-self-loop`, see `table_rows_witness`. -/
+theorem table_rows_partial (root : Node) (es : List Edge)
+    (ho : (∀ e ∈ es, e.tail = root) ∨ (∀ e ∈ es, e.head = root))
+    (hx : ¬ ∃ e0 rest, es = e0 :: rest ∧ e0.tail = root ∧ e0.head = root ∧ ∃ e ∈ es, e.tail ≠ root) :
+    tableRows false root es = es.map (fun e => (otherEnd root e, e.style)) :=
+  tableRows_asis root es ho hx
+
+/-- ... with fixes/C13-table-self-loop.diff (the side is decided by the first edge that is not a
+    self-loop) there is no excluded class. -/
+theorem table_rows_fixed (root : Node) (es : List Edge)
+    (ho : (∀ e ∈ es, e.tail = root) ∨ (∀ e ∈ es, e.head = root)) :
+    tableRows true root es = es.map (fun e => (otherEnd root e, e.style)) :=
+  tableRows_fixed root es ho
+
+/-- the hypothesis `ho` holds for the first hop of every graph class and every root -/
+theorem hop_edges_oriented (fx : Bool) (tab : Table) (nd : NodeData) (c : GClass) (r : Node) :
+    (∀ e ∈ hopEdgesOf (cfgOf fx tab nd c [r]) [r], e.tail = r)
+      ∨ (∀ e ∈ hopEdgesOf (cfgOf fx tab nd c [r]) [r], e.head = r) := by
+  have h := succOf_oriented tab nd c r
+  simp only [hopEdgesOf, cands, cfgOf, List.flatMap_cons, List.flatMap_nil, List.append_nil, List.mem_map]
+  rcases h with h | h
+  · left; rintro e ⟨p, hp, rfl⟩; exact h p hp
+  · right; rintro e ⟨p, hp, rfl⟩; exact h p hp
+
+/-- Witness for the excluded class: procedure `0` calls itself and is called by `1` and `2`; its
+    "called by" hop starts with the self-loop, and the table of the code as it is names `0` three
+    times (never `1` or `2`); with the fix it names `0`, `1`, `2`. -/
+theorem table_rows_witness :
+    let es : List Edge := [⟨0, 0, .solid⟩, ⟨1, 0, .solid⟩, ⟨2, 0, .solid⟩]
+    tableRows false 0 es = [(0, .solid), (0, .solid), (0, .solid)]
+      ∧ tableRows true 0 es = [(0, .solid), (1, .solid), (2, .solid)] := by
+  decide
+
+/-- non-vacuity (round 4): module `0`, BLOCK DATA unit `1` and program `2` both using it: after
+    registering all three the module's `used_by` holds both, and its "used by" graph draws both edges. -/
+example :
+    let tab : Table := [{ kind := .mod, maxDepth := 5, maxNodes := 10 }, { kind := .block, uses := [0] },
+      { kind := .prog, uses := [0] }]
+    (graphAll false false tab [0, 1, 2]).perEntity.any (fun (e, c, g) =>
+      e == 0 && c == .usedBy && g.edges.contains ⟨1, 0, .dashed⟩ && g.edges.contains ⟨2, 0, .dashed⟩) = true := by
+  decide +kernel
 
 /-- non-vacuity: a generic interface `0` over a subroutine `1`, an interface body `2` and a hidden
     procedure `3` links `1` and `2` under the generated table. -/
